@@ -109,6 +109,34 @@ let parse_case (line : string) : case option =
 let norm_obs (s : string) : string =
   if String.length s >= 5 && String.sub s 0 5 = "panic" then "panic" else s
 
+(* An executor maps an error of the implementation to a small class by fragments of its message
+   (ErrClass); a message it does not know is "err ?". The properties speak about success versus
+   failure, not about message texts: when the implementation's observation holds such an unknown
+   class, the comparison is repeated with every error class (on both sides) reduced to "err".
+   Everything else in the observation is still compared. The number of comparisons that needed this
+   is reported in the summary (errclass_unknown). *)
+let strip_errclass (s : string) : string =
+  let b = Buffer.create (String.length s) in
+  let n = String.length s in
+  let i = ref 0 in
+  while !i < n do
+    if !i + 4 <= n && String.sub s !i 4 = "err " && (!i = 0 || not (match s.[!i - 1] with 'a'..'z' | 'A'..'Z' | '0'..'9' | '_' -> true | _ -> false)) then begin
+      Buffer.add_string b "err";
+      i := !i + 4;
+      while !i < n && (match s.[!i] with 'a'..'z' | 'A'..'Z' | '0'..'9' | '?' -> true | _ -> false) do incr i done
+    end else begin Buffer.add_char b s.[!i]; incr i end
+  done;
+  Buffer.contents b
+
+let contains_sub (s : string) (sub : string) : bool =
+  let n = String.length s and m = String.length sub in
+  let rec go i = i + m <= n && (String.sub s i m = sub || go (i + 1)) in go 0
+
+let errclass_unknown = ref 0
+let same_obs (model : string) (impl : string) : bool =
+  norm_obs model = norm_obs impl
+  || (contains_sub impl "err ?" && strip_errclass model = strip_errclass impl && (incr errclass_unknown; true))
+
 (* oracle tables filled from "T" lines of the case file (they precede the cases that need them) *)
 let tables : (string, string) Hashtbl.t = Hashtbl.create 256
 
@@ -154,7 +182,7 @@ let run_file (eval : string -> string list -> string option) (path : string) : u
            | None -> incr unmod; Printf.printf "UNMODELLED\t%d\t%s\n" !lineno c.fn
            | Some m ->
              incr cmp;
-             if norm_obs m <> norm_obs c.obs then begin
+             if not (same_obs m c.obs) then begin
                incr mism;
                let clip s = if String.length s > 300 then String.sub s 0 300 ^ "..." else s in
                Printf.printf "MISMATCH\t%d\t%s\tmodel=%s\timpl=%s\n" !lineno c.fn (clip m) (clip c.obs)
@@ -171,8 +199,8 @@ let run_file (eval : string -> string list -> string option) (path : string) : u
      done
    with End_of_file -> ());
   close_in ic;
-  Printf.printf "SUMMARY\ttotal=%d\tcompared=%d\tmismatch=%d\tunmodelled=%d\tprop_ok=%d\tprop_fail=%d\tprop_skip=%d\n"
-    !total !cmp !mism !unmod !pok !pfail !pskip
+  Printf.printf "SUMMARY\ttotal=%d\tcompared=%d\tmismatch=%d\tunmodelled=%d\tprop_ok=%d\tprop_fail=%d\tprop_skip=%d\terrclass_unknown=%d\n"
+    !total !cmp !mism !unmod !pok !pfail !pskip !errclass_unknown
 
 (* canonical observation of an outcome *)
 let obs_outcome (show : 'a -> string) (o : 'a outcome) : string =
